@@ -392,6 +392,13 @@ func (s *Store) InsertTxCheckIfExists(ns walletdb.ReadWriteBucket,
 // identified by the tx record, and also recursively remove all transactions
 // that depend on it.
 func (s *Store) RemoveUnminedTx(ns walletdb.ReadWriteBucket, rec *TxRecord) error {
+	// Only a transaction that is currently recorded as unmined can be
+	// removed. For any other transaction (already mined, or unknown) there
+	// is nothing to remove, and its unmined spenders must be left alone.
+	if existsRawUnmined(ns, rec.Hash[:]) == nil {
+		return nil
+	}
+
 	// As we already have a tx record, we can directly call the
 	// removeConflict method. This will do the job of recursively removing
 	// this unmined transaction, and any transactions that depend on it.
